@@ -3,6 +3,7 @@ package main
 import (
 	"fmt"
 	"go/types"
+	"strings"
 
 	"golang.org/x/tools/go/ssa"
 )
@@ -177,7 +178,17 @@ func (e *Enc) applyContractVars(x ssa.Value, name string, fc *FuncC, vars map[st
 				continue // the caller's proof does not rely on this clause
 			}
 		}
-		e.assume(cpost.evalBool(en.E))
+		func() {
+			defer func() {
+				if r := recover(); r != nil {
+					if ee, isE := r.(evalError); isE && strings.HasPrefix(ee.msg, "unknown identifier") {
+						return // the clause speaks about the callee's locals: not usable by callers
+					}
+					panic(r)
+				}
+			}()
+			e.assume(cpost.evalBool(en.E))
+		}()
 	}
 	switch res.Len() {
 	case 0:
